@@ -52,14 +52,17 @@ def EmitsAt {α : Type} (m : M α) (subs : List Sub) (s : State) : Prop :=
     CallShape seg (m s).1 ∧ seg.map (·.sub) <+: subs ∧
     (∀ a, (m s).1 = .ok a → seg.map (·.sub) = subs)
 
+/-- two independent handle operations in the order the implementation uses -/
+def pairSubs (ctrlFirst : Bool) (kc ks : Sub) : List Sub := if ctrlFirst then [kc, ks] else [ks, kc]
+
 /-- Sub-operations a call is expected to perform (when nothing fails) from device state `d`. -/
-def expectedSubs (op : Op) (d : Dev) : List Sub :=
+def expectedSubs (env : Env) (op : Op) (d : Dev) : List Sub :=
   match op with
-  | .open => [.ctrlOpen, .strmOpen]
+  | .open => pairSubs env.openCtrlFirst .ctrlOpen .strmOpen
   | .load => [.genapi]
   | .start cap => if d.loopFlag || d.ctxt.isNone || cap == 0 then [] else startSeq
   | .stop => if d.loopFlag then stopSeq else []
-  | .close => (if d.loopFlag then stopSeq else []) ++ [.ctrlClose, .strmClose]
+  | .close => (if d.loopFlag then stopSeq else []) ++ pairSubs env.closeCtrlFirst .ctrlClose .strmClose
   | .param => if d.ctxt.isSome && !d.cache.gain then [.paramRead] else []
   | .gate v => if d.ctxt.isSome then [.gateSet v] else []
 
